@@ -257,3 +257,18 @@ package httpgen
 //@   decreases 2*spec.remainingB(visiting) + 2
 //@   ensures restored: forall s string :: (inDom(visiting, s) && visiting[s]) <==> (inDom(old(visiting), s) && old(visiting)[s])
 //@   ensures measure: spec.remainingB(visiting) == spec.remainingB(old(visiting))
+
+// ---- the unwrap table is only a cache (C15): which map fields get unwrap code depends on the definitions of the
+// value messages alone, not on which files were scanned into the table ----
+
+//@ func getMapValueMessage(field *protogen.Field) (r *protogen.Message)
+//@   pure
+//@   existing
+
+//@ func collectUnwrapMapFields(msg *protogen.Message, unwrapMessages map[string]*annotations.UnwrapFieldInfo) (r []*UnwrapMapField)
+//@   requires msg != nil
+//@   opaque annotations.GetUnwrapField
+//@   ensures count_whatever_the_table: spec.tableSound(unwrapMessages) ==> len(r) == spec.countUnwraps(msg, len(msg.Fields))
+//@   ensures sound_whatever_the_table: spec.tableSound(unwrapMessages) ==> (forall j int :: 0 <= j && j < len(r) ==> r[j] != nil && member(msg.Fields, r[j].Field) && spec.unwrapsMapValue(r[j].Field))
+//@   loop 1 invariant spec.tableSound(unwrapMessages) ==> len(mapFields) == spec.countUnwraps(msg, _i1)
+//@   loop 1 invariant spec.tableSound(unwrapMessages) ==> (forall j int :: 0 <= j && j < len(mapFields) ==> mapFields[j] != nil && member(msg.Fields, mapFields[j].Field) && spec.unwrapsMapValue(mapFields[j].Field))
